@@ -22,10 +22,9 @@ comment and blank lines) parses, and loads to the elaboration of the items' fiel
 `C09_text_transaction`: a printed transaction (any padding, with or without `@performance` targets, any Unicode
 description without `"`) loads back to exactly that transaction, provided it is in the booking normal form of
 `C09_booking_normal_form` (its posting list is what the printed bookings rebuild; negative bookings are thereby
-covered: the printer writes the swapped accounts and the positive amount). The printer replaces `"` by `'` in the
-description with `String.replace`, which core Lean neither characterises by lemmas nor lets the kernel evaluate
-(it runs on `WellFounded.opaqueFix` iterators); `PrintableTx` therefore carries both `'"' ∉ description` and
-`description.replace "\"" "'" = description` — the second follows from the first in fact, but not provably here.
+covered: the printer writes the swapped accounts and the positive amount). The printer's `"`→`'` replacement
+(`JournalPrinter.descText`, character-wise as Go's `strings.ReplaceAll` on one ASCII byte) is the identity on such a
+description (`descText_id`); `PrintableTx` is decidable.
 
 Not proved (see `DESIGN_C09Text.md`): the lift to `JournalPrinter.print` of whole journals
 (`C09_text_journal_fixpoint` below is stated, not proved).
@@ -110,30 +109,15 @@ example : loadText "j" (strBytes (printAssertions [⟨737424, [⟨⟨["Assets", 
     · exact ⟨by decide +kernel, by decide, by decide +kernel⟩
     · exact ⟨by decide +kernel, by decide, by decide +kernel⟩⟩
 
-/-- a transaction with a Unicode description, `@performance` targets and a negative booking (printed swapped, as 12.5).
-`String.replace` cannot be evaluated by the kernel, so its being the identity on this description is a hypothesis. -/
+/-- a transaction with a Unicode description, `@performance` targets and a negative booking (printed swapped, as 12.5) -/
 def exTx : Transaction :=
   { date := 737424, description := "Café – Miete",
     postings := postingBuild ⟨["Assets", "Bank"]⟩ ⟨["Expenses", "Wohnen"]⟩ "CHF" (mkRat (-25) 2),
     targets := some ["USD", "CHF"] }
 
-example (hrep : exTx.description.replace "\"" "'" = exTx.description) :
-    loadText "j" (strBytes (printTx 14 exTx)) = .ok [.tx exTx] :=
-  C09_text_transaction 14 "j" exTx ⟨by decide, by decide, hrep, by decide, by
-    intro p hp
-    have : everyOther exTx.postings =
-        [{ account := ⟨["Assets", "Bank"]⟩, other := ⟨["Expenses", "Wohnen"]⟩, commodity := "CHF", quantity := mkRat 25 2 }] := by
-      decide +kernel
-    rw [this] at hp
-    simp only [List.mem_singleton] at hp
-    subst hp
-    exact ⟨by decide +kernel, by decide +kernel, by decide, by decide +kernel⟩, by decide +kernel, by
-    intro tg htg c hc
-    have : tg = ["USD", "CHF"] := by
-      have : exTx.targets = some ["USD", "CHF"] := rfl
-      rw [this] at htg; injection htg with htg; exact htg.symm
-    subst this
-    simp only [List.mem_cons, List.not_mem_nil, or_false] at hc
-    rcases hc with rfl | rfl <;> decide +kernel⟩
+example : PrintableTx exTx := by decide +kernel
+
+example : loadText "j" (strBytes (printTx 14 exTx)) = .ok [.tx exTx] :=
+  C09_text_transaction 14 "j" exTx (by decide +kernel)
 
 end Knut.C09
